@@ -384,6 +384,10 @@ var ops = []op{
 			old := Base(b.Var)
 			renameFree(b.Body, old, z)
 			b.Var = z
+		case (t.Op == "recv" || t.Op == "split") && r.Intn(2) == 0:
+			old := Base(t.Z)
+			renameFree(t.Cont, old, z)
+			t.Z = z
 		case t.Op == "recv" || t.Op == "split":
 			old := Base(t.Y)
 			renameFree(t.Cont, old, z)
@@ -421,6 +425,41 @@ var ops = []op{
 		replace(cons[k], cons[k].Cont)
 		cs[k].t.Z = cs[k].t.Y
 		return fmt.Sprintf("%s binds one name twice and the second component is never used in %s", cs[k].t.Op, cs[k].where)
+	}},
+	{"call-argument-twice", "substructural", func(p *Program, r *rand.Rand, ss []site) string {
+		// f(a, b) becomes drop b; f(a, a): one channel is handed over twice
+		s := pickSite(r, ss, func(s site) bool { return s.t.Op == "call" && len(s.t.Args) >= 2 })
+		if s == nil {
+			return ""
+		}
+		args := append([]string(nil), s.t.Args...)
+		i := r.Intn(len(args))
+		j := (i + 1 + r.Intn(len(args)-1)) % len(args)
+		// prefer two parameters of the same type, the dropped one weakenable
+		if f := p.FuncByName(s.t.Fn); f != nil && len(f.Params) == len(args) {
+			env := p.Env()
+			var pairs [][2]int
+			for a := range args {
+				for b := range args {
+					if a != b && Equal(f.Params[a].T, f.Params[b].T, env) && f.Params[b].T.M.Weaken() {
+						pairs = append(pairs, [2]int{a, b})
+					}
+				}
+			}
+			if len(pairs) > 0 {
+				k := pairs[r.Intn(len(pairs))]
+				i, j = k[0], k[1]
+			}
+		}
+		if IsSelf(args[i]) || IsSelf(args[j]) {
+			return ""
+		}
+		old := args[j]
+		args[j] = Base(args[i])
+		c := *s.t
+		c.Args = args
+		*s.t = Term{Op: "drop", X: Base(old), Cont: &c}
+		return fmt.Sprintf("call %s passes %s twice (and drops %s) in %s", c.Fn, Base(args[i]), Base(old), s.where)
 	}},
 	{"multi-name", "substructural", func(p *Program, r *rand.Rand, ss []site) string {
 		var c []*Proc
@@ -687,6 +726,60 @@ var ops = []op{
 		alts := []*Ty{Unit(m), Send(m, Unit(m), Unit(m)), Recv(m, Unit(m), Unit(m)), Plus(m, Branch{L: "l0", T: Unit(m)}), With(m, Branch{L: "l0", T: Unit(m)}, Branch{L: "l1", T: Unit(m)})}
 		s.t.Ann = alts[r.Intn(len(alts))]
 		return fmt.Sprintf("cut annotation of %s replaced by %s in %s", s.t.Y, s.t.Ann, s.where)
+	}},
+	{"annotation-deep-change", "typing", func(p *Program, r *rand.Rand, ss []site) string {
+		// one difference somewhere inside a cut annotation / parameter / result type
+		var slots []**Ty
+		for _, s := range ss {
+			if s.t.Op == "new" && s.t.Ann != nil && s.t.Body.Op != "call" {
+				slots = append(slots, &s.t.Ann)
+			}
+		}
+		for _, f := range p.Funcs {
+			slots = append(slots, &f.Ret)
+			for j := range f.Params {
+				slots = append(slots, &f.Params[j].T)
+			}
+		}
+		if len(slots) == 0 {
+			return ""
+		}
+		slot := slots[r.Intn(len(slots))]
+		t := (*slot).Clone()
+		*slot = t
+		var nodes []*Ty
+		var collect func(x *Ty)
+		collect = func(x *Ty) {
+			if x == nil {
+				return
+			}
+			nodes = append(nodes, x)
+			collect(x.L)
+			collect(x.R)
+			for _, b := range x.Br {
+				collect(b.T)
+			}
+		}
+		collect(t)
+		x := nodes[r.Intn(len(nodes))]
+		m := x.M
+		switch {
+		case x.K == KUnit:
+			x.K, x.L, x.R = KSend, Unit(m), Unit(m)
+		case x.K == KName:
+			x.K, x.Name = KUnit, ""
+		case (x.K == KPlus || x.K == KWith) && len(x.Br) > 1 && r.Intn(2) == 0:
+			x.Br = x.Br[:len(x.Br)-1]
+		case x.K == KPlus || x.K == KWith:
+			x.Br = append(x.Br, Branch{L: "extra", T: Unit(m)})
+		case x.K == KSend:
+			x.K = KRecv
+		case x.K == KRecv:
+			x.K = KSend
+		default:
+			x.L = Send(x.L.M, x.L, Unit(x.L.M))
+		}
+		return "one difference deep inside a type annotation / signature"
 	}},
 	{"drop-annotation", "typing", func(p *Program, r *rand.Rand, ss []site) string {
 		s := pickSite(r, ss, func(s site) bool { return s.t.Op == "new" && s.t.Ann != nil && s.t.Body.Op != "call" })
